@@ -665,7 +665,7 @@ func TestEngine(t *testing.T) {
 		runCase(t, tr, fmt.Sprintf("case d%d threads=%d", i, nThreads), d, nil)
 	}
 	r := hx.Rand(606)
-	for id := range hx.Cases(2500, 40000) {
+	for id := range hx.Cases(2500, 30000) {
 		runCase(t, tr, fmt.Sprintf("case %d threads=%d", id, nThreads), nil, genRandom(r))
 	}
 }
